@@ -407,6 +407,15 @@ func (p *Project) SoilCSV() string {
 		sb.WriteString(soilCSVHeader + "\n")
 		sb.WriteString("900,1.00,SL3,20,3,00,10,00,10,01,,,,,,,00,0.0,99\n")
 	}
+	// two profiles for negative tests: 901 has a texture that is in no parameter table, 902 has texture fractions
+	// that do not sum to 100 % (only read with a pedotransfer function)
+	if bulk {
+		sb.WriteString("901,1.00,XX9,20,3,,00,10,00,10,01,,,,,,,00,0.0,99\n")
+		sb.WriteString("902,1.00,SL3,20,3,,00,10,00,10,01,,,60,50,20,10,00,0.0,99\n")
+	} else {
+		sb.WriteString("901,1.00,XX9,20,3,00,10,00,10,01,,,,,,,00,0.0,99\n")
+		sb.WriteString("902,1.00,SL3,20,3,00,10,00,10,01,,,60,50,20,10,00,0.0,99\n")
+	}
 	for i, h := range s.Horizons {
 		opt := func(v int) string {
 			if v == 0 {
